@@ -7,6 +7,7 @@ rmdir "$wt"
 git -C /repo worktree add -q "$wt" HEAD || exit 2
 if ! git -C "$wt" apply "$patch"; then echo "patch does not apply"; git -C /repo worktree remove --force "$wt"; exit 2; fi
 cd "$(dirname "$0")/.." || exit 2
+mkdir -p out
 for id in "$@"; do
   VERIF_REPO="$wt" ./check "$id" --no-min > "out/mut-$id.log" 2>&1
   echo "rc=$? $(tail -1 out/mut-$id.log | cut -c1-160)"
